@@ -199,6 +199,22 @@ func (w *World) BuildMsg(m M) (sdk.Msg, error) {
 		}
 		e := authz.NewMsgExec(g, inner)
 		return &e, nil
+	case "Grant":
+		granter, err := sdk.AccAddressFromBech32(A("granter"))
+		if err != nil {
+			return nil, err
+		}
+		grantee, err := sdk.AccAddressFromBech32(A("grantee"))
+		if err != nil {
+			return nil, err
+		}
+		g, err := authz.NewMsgGrant(granter, grantee, authz.NewGenericAuthorization(msgTypeURL(mStr(m, "mt"))), nil)
+		if err != nil {
+			return nil, err
+		}
+		return g, nil
+	case "Revoke":
+		return &authz.MsgRevoke{Granter: A("granter"), Grantee: A("grantee"), MsgTypeUrl: msgTypeURL(mStr(m, "mt"))}, nil
 	case "UpdParams":
 		return w.buildUpdParams(m)
 	case "GovProp":
@@ -390,3 +406,32 @@ func (w *World) BuildTx(ctx sdk.Context, t TxSpec) ([]byte, sdk.Tx, error) {
 
 var _ = rand.Int
 var _ client.TxConfig
+
+// msgTypeURL maps a model message type to the protobuf type URL authz grants are keyed by.
+var msgTypeURLs = map[string]string{
+	"Raise": sdk.MsgTypeURL(&enttypes.MsgUndPurchaseOrder{}), "Decide": sdk.MsgTypeURL(&enttypes.MsgProcessUndPurchaseOrder{}),
+	"Whitelist": sdk.MsgTypeURL(&enttypes.MsgWhitelistAddress{}),
+	"WReg": sdk.MsgTypeURL(&wrkchaintypes.MsgRegisterWrkChain{}), "WRec": sdk.MsgTypeURL(&wrkchaintypes.MsgRecordWrkChainBlock{}),
+	"WBuy": sdk.MsgTypeURL(&wrkchaintypes.MsgPurchaseWrkChainStateStorage{}),
+	"BReg": sdk.MsgTypeURL(&beacontypes.MsgRegisterBeacon{}), "BRec": sdk.MsgTypeURL(&beacontypes.MsgRecordBeaconTimestamp{}),
+	"BBuy": sdk.MsgTypeURL(&beacontypes.MsgPurchaseBeaconStateStorage{}),
+	"SCreate": sdk.MsgTypeURL(&streamtypes.MsgCreateStream{}), "SClaim": sdk.MsgTypeURL(&streamtypes.MsgClaimStream{}),
+	"STopUp": sdk.MsgTypeURL(&streamtypes.MsgTopUpDeposit{}), "SRate": sdk.MsgTypeURL(&streamtypes.MsgUpdateFlowRate{}),
+	"SCancel": sdk.MsgTypeURL(&streamtypes.MsgCancelStream{}), "Send": sdk.MsgTypeURL(&banktypes.MsgSend{}),
+}
+
+func msgTypeURL(t string) string {
+	if u, ok := msgTypeURLs[t]; ok {
+		return u
+	}
+	return t
+}
+
+func msgTypeOfURL(u string) string {
+	for t, x := range msgTypeURLs {
+		if x == u {
+			return t
+		}
+	}
+	return u
+}
